@@ -10,6 +10,7 @@
 package header
 
 import (
+	"math"
 	"net/http"
 	"strconv"
 	"strings"
@@ -306,6 +307,10 @@ func expectQuality(s string) (q float64, rest string) {
 	if i > 0 {
 		// any number of digits: an integer accumulator overflows beyond 18 of them
 		f, _ := strconv.ParseFloat("0."+s[:i], 64)
+		if f == 0 && strings.Trim(s[:i], "0") != "" {
+			// a fraction too small for a float64 still is no zero quality: q=0 means "not acceptable"
+			f = math.SmallestNonzeroFloat64
+		}
 		q += f
 	}
 	return q, s[i:]
